@@ -152,8 +152,8 @@ func checkSnapshotAgainstLMDB(f *fault.Bucket, name string, env *lmdb.Env, nativ
 	if flat.Meta.TimestampNano < uint64(t0.UnixNano()) || flat.Meta.TimestampNano > uint64(t1.UnixNano()) {
 		return flat, fmt.Errorf("snapshot time %d outside the bracket of the SendOnce call [%d,%d]", flat.Meta.TimestampNano, t0.UnixNano(), t1.UnixNano())
 	}
-	if flat.FormatVersion != 3 || flat.CompatVersion != 1 {
-		return flat, fmt.Errorf("format/compat version %d/%d", flat.FormatVersion, flat.CompatVersion)
+	if flat.FormatVersion != snapshot.CurrentFormatVersion || flat.CompatVersion != snapshot.WriteCompatFormatVersion {
+		return flat, fmt.Errorf("format/compat version %d/%d, this build writes %d/%d", flat.FormatVersion, flat.CompatVersion, snapshot.CurrentFormatVersion, snapshot.WriteCompatFormatVersion)
 	}
 	if flat.Meta.LmdbTxnID != lm.LastTxnID(env) {
 		return flat, fmt.Errorf("meta transaction id %d, LMDB last transaction id %d", flat.Meta.LmdbTxnID, lm.LastTxnID(env))
